@@ -13,7 +13,18 @@ GOOD = ["Glc", "Man(a1-2)Man", "Gal(b1-4)GlcNAc", "Neu5Ac(a2-3)Gal(b1-4)Glc", "M
         "GalNAc(a1-3)[Fuc(a1-2)]Gal", "Araf", "GlcNAc6S", "Rha(a1-3)Glc a", "Man b", "1,6-Anhydro-Glc", "Gal(b1-4)Glc-ol", "IdoA2S(a1-4)GlcNS6S"]
 BAD_STR = ["", " ", "Glc(", "Glc(a1-4", "(a1-4)Glc", "Glcc", "Man((a1-2))Man", "Glc#Man", "Glc\x00", "Glc\n", "\tGlc", "Gal(b1-4)", "][", "{}", "Unk", "Glc(a1-?)Glc",
            "Man(a1-2)[Man(a1-3)][Man(a1-4)][Man(a1-6)][Man(a1-1)]Man", "Glc9S", "Glc(a1-9)Glc", "Gal,Glc", "Glc,", "ü", "Glc(a1-4)Glc(a1-4", "NeuAc5", "aaaa", "---", "Glc1Me(a1-4)Glc",
-           "Glc(a1-1)Glc(a1-4)Glc"]
+           "Glc(a1-1)Glc(a1-4)Glc", "Man\x0cFuc", "Glc\x0bGlc", "Gal\x1cGlc", "Glc\x85Man", "Glc\u2028Man", "Man\x1dFuc", "Glc\x1eGal", "Glc\u2029Gal", "Glc Man",
+           "Man\x0c", "\x0bGlc", "Glc\x1f"]
+
+
+def file_lines_spec(text):
+    """Spec of 'one glycan per line, surrounding whitespace removed': lines end at \\n, \\r\\n or \\r (universal newlines) and
+    nowhere else; a trailing terminator does not start another line"""
+    import re
+    parts = re.split("\r\n|\r|\n", text)
+    if parts and parts[-1] == "":
+        parts = parts[:-1]
+    return [p.strip() for p in parts]
 NON_STR = [{"none": 1}, {"int": 7}, {"float": 1.5}, {"bytes": "Glc"}, {"list": ["Glc"]}, {"int": 0}]
 
 
